@@ -110,6 +110,7 @@ func TestC10RunSnapshot(t *testing.T) {
 			return
 		}
 		c.BPSets, c.InPlace = nil, false
+		c.Script = noArmEvents(c.Script)
 		if c.Runs < 2 {
 			c.Runs = 2
 		}
@@ -198,6 +199,7 @@ func TestC10RunConcurrent(t *testing.T) {
 				return
 			}
 			c.BPSets, c.InPlace = nil, false
+			c.Script = noArmEvents(c.Script)
 			if c.Runs < 2 {
 				c.Runs = 2
 			}
@@ -261,4 +263,16 @@ func TestC10RunConcurrent(t *testing.T) {
 			}
 		}
 	})
+}
+
+// noArmEvents drops the script events that edit break points (in C08's rig they are mirrored into the Step-driven
+// twin's own set, which the Run-driven clones of these tests do not have).
+func noArmEvents(sc []c08Script) []c08Script {
+	var out []c08Script
+	for _, ev := range sc {
+		if ev.Kind != "armbp" && ev.Kind != "newbps" {
+			out = append(out, ev)
+		}
+	}
+	return out
 }
